@@ -171,6 +171,17 @@ func (vc *VC) Run() {
 			vc.assume(vc.specAssumable(env, r.Expr))
 		}
 	}
+	if vc.con != nil {
+		env := vc.specEnvAt(st, fd.Body.Lbrace+1)
+		for _, pc := range vc.con.Preserves {
+			pv := env.eval(pc.Expr)
+			if pv.T != nil && kindOf(pv.T) == KPtr {
+				vc.preserved = append(vc.preserved, preservedObj{name: pc.Text, elem: elemTypeOf(pv.T), arr: pv.C[0], idx: pv.C[1]})
+			} else {
+				vc.prog.errf(vc.con.File, pc.Line, "%s: preserves needs a pointer parameter: %s", vc.unit, pc.Text)
+			}
+		}
+	}
 	vc.cover(st, nil, "requires-satisfiable")
 	f := vc.execBlock(fd.Body.List, st)
 	if f.normal != nil && !f.normal.pc.IsFalse() {
